@@ -233,27 +233,25 @@ Definition res_obs_eqb (a b : res_obs) : bool :=
   | _, _ => false
   end.
 
-(** which service and which of its target groups (false = active, true = rollout) a serving target belongs to,
-    according to the state file of that step *)
-Definition served_group (o : step_obs) (sb : str) : option (str * bool) :=
+(** the (service, group) pairs a serving target may belong to according to the state file of that step
+    (false = active, true = rollout); target names can be shared between services, so this is a list *)
+Definition served_groups (o : step_obs) (sb : str) : list (str * bool) :=
   match so_snapshot o with
-  | None => None
+  | None => []
   | Some l =>
-    match find (fun s => mem_str sb (sn_active s)) l with
-    | Some s => Some (sn_name s, false)
-    | None =>
-      match find (fun s => match sn_rollout s with Some ts => mem_str sb ts | None => false end) l with
-      | Some s => Some (sn_name s, true)
-      | None => None
-      end
-    end
+    flat_map (fun s =>
+      (if mem_str sb (sn_active s) then [(sn_name s, false)] else []) ++
+      (match sn_rollout s with Some ts => if mem_str sb ts then [(sn_name s, true)] else [] | None => [] end)) l
   end.
 
-Definition group_eqb (x y : option (str * bool)) : bool :=
-  option_eqb (fun p q => str_eqb (fst p) (fst q) && Bool.eqb (snd p) (snd q)) x y.
+Definition groups_compatible (x y : list (str * bool)) : bool :=
+  match x, y with
+  | [], [] => true
+  | _, _ => existsb (fun p => existsb (fun q => str_eqb (fst p) (fst q) && Bool.eqb (snd p) (snd q)) y) x
+  end.
 
 Definition step_equiv (a b : step_obs) : bool :=
-  list_eqb (fun x y => group_eqb (served_group a (ro_served_by (snd x))) (served_group b (ro_served_by (snd y))))
+  list_eqb (fun x y => groups_compatible (served_groups a (ro_served_by (snd x))) (served_groups b (ro_served_by (snd y))))
            (so_requests a) (so_requests b) &&
   res_obs_eqb (so_result a) (so_result b) &&
   list_eqb row_eqb (so_list a) (so_list b) &&
